@@ -33,18 +33,22 @@ func (n *namedOps) abs(file string) string {
 }
 
 func (n *namedOps) ReadRemote(path string) ([]byte, error) {
+	privateOp("ReadRemote", n.abs(path))
 	n.s.Gate(n.who(), "ReadRemote", n.abs(path))
 	return n.o.ReadRemote(path)
 }
 func (n *namedOps) ReadConfig(file string) ([]byte, error) {
+	privateOp("ReadConfig", n.abs(file))
 	n.s.Gate(n.who(), "ReadConfig", n.abs(file))
 	return n.o.ReadConfig(file)
 }
 func (n *namedOps) WriteConfig(file string, old, new []byte) error {
+	privateOp("WriteConfig", n.abs(file))
 	n.s.Gate(n.who(), "WriteConfig", n.abs(file))
 	return n.o.WriteConfig(file, old, new)
 }
 func (n *namedOps) ReadCache(file string) ([]byte, error) {
+	privateOp("ReadCache", n.abs(file))
 	n.s.Gate(n.who(), "ReadCache", n.abs(file))
 	n.o.mu.Lock()
 	n.o.clientCalls = append(n.o.clientCalls, n.name+" ReadCache "+n.abs(file))
@@ -52,11 +56,36 @@ func (n *namedOps) ReadCache(file string) ([]byte, error) {
 	return n.o.ReadCache(file)
 }
 func (n *namedOps) WriteCache(file string, data []byte) {
+	privateOp("WriteCache", n.abs(file))
 	n.s.Gate(n.who(), "WriteCache", n.abs(file))
 	n.o.WriteCache(file, data)
 }
 func (n *namedOps) Log(msg string)           {}
 func (n *namedOps) SecurityError(msg string) { n.o.SecurityError(msg) }
+
+// A lookup of a path matching the private pattern list must not cause any external operation (C14).  The
+// goroutine running such a lookup is marked; every external operation checks the mark.
+var (
+	privateNow   sync.Map // goroutine id -> description of the private lookup in progress
+	privateMu    sync.Mutex
+	privateFound []string
+)
+
+func privateOp(op, file string) {
+	if d, ok := privateNow.Load(gid()); ok {
+		privateMu.Lock()
+		privateFound = append(privateFound, fmt.Sprintf("%s %s during %s", op, file, d))
+		privateMu.Unlock()
+	}
+}
+
+func takePrivateFound() []string {
+	privateMu.Lock()
+	defer privateMu.Unlock()
+	out := privateFound
+	privateFound = nil
+	return out
+}
 
 // goroutine identity: lookups run on goroutines registered by runLookups, so that gates can
 // name the model thread they belong to
@@ -199,9 +228,14 @@ func replaySchedule(c *core.Case, in *behaviourIn) ([]core.Violation, bool) {
 	var omu sync.Mutex
 	var obs []obsT
 	var wg sync.WaitGroup
+	privateKeys := map[int]bool{}
+	for _, k := range in.Skip {
+		privateKeys[k] = true
+	}
+	takePrivateFound()
 	for t, keys := range perThread {
 		wg.Add(1)
-		go runLookups(&wg, s, in.ClientOf[t]+"/"+t, t, keys, clients[in.ClientOf[t]], w, func(k int, lines []string, err error) {
+		go runLookups(&wg, s, in.ClientOf[t]+"/"+t, t, keys, privateKeys, clients[in.ClientOf[t]], w, func(k int, lines []string, err error) {
 			omu.Lock()
 			obs = append(obs, obsT{t, k, lines, err})
 			omu.Unlock()
@@ -334,6 +368,9 @@ done:
 			vs = append(vs, core.Violation{Sig: "c14:wrong-result", What: fmt.Sprintf("honest server, concurrent Lookup(%s,%s) by %s returned %q, %v", path, vers, o.t, o.lines, o.err)})
 		}
 	}
+	for _, f := range takePrivateFound() {
+		vs = append(vs, core.Violation{Sig: "c14:skip-not-silent", What: "external operation for a path matching the private pattern list: " + f})
+	}
 	ops.mu.Lock()
 	seen := map[string]int{}
 	for _, cc := range ops.clientCalls {
@@ -375,7 +412,7 @@ func hookPoint(c *core.Case, h histOp, raw *struct {
 	return h.Point
 }
 
-func runLookups(wg *sync.WaitGroup, s *sched.Sched, client, t string, keys []int, cl *sumdb.Client, w *sumworld.World, done func(int, []string, error)) {
+func runLookups(wg *sync.WaitGroup, s *sched.Sched, client, t string, keys []int, private map[int]bool, cl *sumdb.Client, w *sumworld.World, done func(int, []string, error)) {
 	defer wg.Done()
 	g := gid()
 	gidThread.Store(g, t)
@@ -383,7 +420,11 @@ func runLookups(wg *sync.WaitGroup, s *sched.Sched, client, t string, keys []int
 	for _, k := range keys {
 		s.Gate(client, "LookupStart", fmt.Sprintf("%s/%d", t, k))
 		path, vers := lookupArgs(w, k)
+		if private[k] {
+			privateNow.Store(g, fmt.Sprintf("Lookup(%s,%s) by %s", path, vers, t))
+		}
 		lines, err := cl.Lookup(path, vers)
+		privateNow.Delete(g)
 		done(k, lines, err)
 	}
 }
